@@ -1,9 +1,11 @@
 #!/bin/bash
 # all 20 thorough checks on /repo itself (sequential); one line per check
 cd "$(dirname "$0")/../.." || exit 2
+bad=0
 for i in ${*:-$(seq -w 1 20)}; do
   t0=$(date +%s)
   out=$(./check C$i --tier thorough 2>&1); rc=$?
   echo "C$i rc=$rc $(( $(date +%s) - t0 ))s | $(echo "$out" | grep -v WARNING | tail -1 | cut -c1-200)"
-  [ $rc -ne 0 ] && echo "$out" | grep -E "VIOLATION|Traceback|Error|INFRA|TIMEOUT" | head -5
+  if [ $rc -ne 0 ]; then bad=1; echo "$out" | grep -E "VIOLATION|Traceback|Error|INFRA|TIMEOUT" | head -5; fi
 done
+exit $bad
